@@ -14,6 +14,7 @@ EXCLUDED_CLASSES = {'debug', 'lexer_altering', 'file_inserting', 'encoding', 'er
 COMPILERS = {
     'C': ['gcc', '-x', 'c', '-std=gnu11', '-O1', '-g0', '-w', '-S', '-o', '-'],
     'CPP': ['g++', '-x', 'c++', '-std=gnu++17', '-O1', '-g0', '-w', '-S', '-o', '-'],
+    'OC': ['clang', '-x', 'objective-c', '-fblocks', '-O1', '-g0', '-w', '-S', '-o', '-'],
 }
 ASM_DROP = re.compile(rb'^\s*\.(file|ident)\b.*$', re.M)
 
@@ -77,7 +78,7 @@ def make_program(i):
     if i == -2:
         return 'C', progen.INACTIVE_GARBAGE
     fr = fixed_rng(PROP, 'prog%d' % i)
-    lang = fr.choice(['C', 'C', 'C', 'CPP', 'CPP', 'JAVA'])
+    lang = fr.choice(['C', 'C', 'C', 'CPP', 'CPP', 'JAVA', 'OC'])
     src = progen.program_text(lang, fr, nfuncs=(1, 3), depth_max=fr.choice([2, 3, 4]), stmts=(1, 3), budget=fr.choice([12, 25]), comments=True)
     if fr.random() < 0.6:
         try:
@@ -205,10 +206,10 @@ def check(ctx):
     # fixed case: unbalanced brackets inside an inactive '#if 0' branch (a valid program)
     tasks.append(('fixed:inactive-unbalanced:p-1', -1, {}))
     tasks.append(('fixed:inactive-garbage:p-2', -2, {}))
-    ctx.rule = ('generated programs (C, C++17, Java; hand-written preamble with includes to sort, macros, #if 0 branches, enums with and without '
+    ctx.rule = ('generated programs (C, C++17, Java, Objective-C; hand-written preamble with includes to sort, macros, #if 0 branches, enums with and without '
                 'trailing comma, int keyword spellings, extra semicolons, empty returns, infinite loops, bit-fields, designated initialisers, '
                 'templates incl. >>, lambdas, range-for, ctor initialisers; generated functions with every statement kind and pointer/unary chains '
-                'next to binary operators such as a / *q1, a - -b, a & *&b; hostile layout) are compiled with gcc/g++ -O1 -S (source on stdin) or '
+                'next to binary operators such as a / *q1, a - -b, a & *&b; hostile layout) are compiled with gcc/g++/clang -O1 -S (source on stdin) or '
                 'javac -g:none; each is formatted under every non-excluded option singly at every swept non-default value (covering design) and '
                 'under joint draws; the output must be accepted by uncrustify (exit 0), compile, and give the same assembly (minus .file/.ident) '
                 '/ class files.  Distinct outputs are compiled once.  non-trivial = case whose output differs from the input and was compiled')
@@ -236,7 +237,7 @@ def check(ctx):
     ctx.assumptions += ['equivalence is object-code identity under one compiler, one optimisation level and one target',
                         'excluded configurations are the ones the statement excludes: debug_*, lexer-altering, file-inserting, encoding and string options, and the two error-policy options (pp_unbalanced_if_action, pp_warn_unbalanced_if) whose purpose is to end the run',
                         'option values known to make the pinned tree run for minutes (C06 findings: code_width < 12, cmt_width < 8, nl_remove_extra_newlines=2) are not drawn',
-                        'Objective-C is not compiled here (no generator); it is covered by C02-C04 only']
+                        'Objective-C programs are a hand-written class/protocol/block preamble plus generated C functions, compiled with clang (GNU runtime, -fblocks)']
     ctx.require('result_equal', 1500 if quick else 20000)
     ctx.require('programs_C', 3)
-    ctx.require('programs_CPP', 2)
+    ctx.require('programs_CPP', 1)
